@@ -210,7 +210,7 @@ def gen(api):
         for need in ("nsend = 0 ;", "nsend += iov [ 0 ] . iov_len = sizeof ( hdr ) ;", "nsend += iov [ 1 ] . iov_len = m -> pkt_len ;"):
             if need not in txt:
                 raise Bad("m_msg_send: `%s` not found (nsend must be the sum of the iov_len handed to writev)" % need.replace(" ", ""))
-        if txt.count("nsend") != 3 + txt[txt.index("fd_timed_write_iov"):].count("nsend"):
+        if len(re.findall(r"nsend (?:=|\+=|-=|\+\+|--|\*=) ", txt)) != 3 or "& nsend" in txt:
             raise Bad("m_msg_send: nsend is modified elsewhere")
         i = find_call(st, "fd_timed_write_iov")
         send, args, after = io_chain(st, i, "fd_timed_write_iov", ["nsend"])
